@@ -30,8 +30,8 @@ PROPS = {
     'C02': P('C02', 48000, 4000000, modules=['D128.Props.C02', 'D128.Props.C02Quo', 'D128.Proofs.Words128Div'] + KERNEL + PROLOGUE + SPECM, kernel=ROUNDING_KERNELS),
     'C03': P('C03', 32000, 2000000, modules=['D128.Props.C03', 'D128.Proofs.Words128Div'] + KERNEL + PROLOGUE + SPECM, kernel=['U128.div', 'U128.mul64', 'RoundingMode.reduce128', 'RoundingMode.round']),
     'C04': P('C04', 16000, 1500000, modules=['D128.Props.C04', 'D128.Props.C04b'] + SPECM, kernel=['CmpResult.*', 'U128.cmp', 'U128.div1*', 'U128.div10*', 'Decimal.Cmp', 'Decimal.CmpAbs', 'Decimal.Equal']),
-    'C05': P('C05', 32000, 2000000, modules=['D128.Props.C05', 'D128.Props.C05Value', 'D128.Props.C05Scan'] + KERNEL, kernel=['parseNumber', 'parse', 'RoundingMode.reduce128', 'Decimal.Scan', 'MustParse'], extra_gens=['FMT']),
-    'C06': P('C06', 16000, 1500000, modules=['D128.Props.C06', 'D128.Props.C06b', 'D128.Props.C07c', 'D128.Props.C05', 'D128.Props.C05Value', 'D128.Props.C05Scan'] + KERNEL, kernel=['Decimal.digits_', 'U128.div100', 'parseNumber', 'RoundingMode.reduce128', 'digits.fmtE', 'digits.fmtF', 'Decimal.appendSpecial', 'Decimal.String', 'Decimal.MarshalText', 'Format', 'Append', 'Decimal.Format', 'Decimal.writeSpecial', 'Decimal.Scan'], extra_gens=['FMT']),
+    'C05': P('C05', 32000, 2000000, modules=['D128.Props.C05', 'D128.Props.C05Value', 'D128.Props.C05Scan', 'D128.Props.C05Entry'] + KERNEL, kernel=['parseNumber', 'parse', 'RoundingMode.reduce128', 'Decimal.Scan', 'MustParse'], extra_gens=['FMT']),
+    'C06': P('C06', 16000, 1500000, modules=['D128.Props.C06', 'D128.Props.C06b', 'D128.Props.C07c', 'D128.Props.C05', 'D128.Props.C05Value', 'D128.Props.C05Scan', 'D128.Props.C05Entry'] + KERNEL, kernel=['Decimal.digits_', 'U128.div100', 'parseNumber', 'RoundingMode.reduce128', 'digits.fmtE', 'digits.fmtF', 'Decimal.appendSpecial', 'Decimal.String', 'Decimal.MarshalText', 'Format', 'Append', 'Decimal.Format', 'Decimal.writeSpecial', 'Decimal.Scan'], extra_gens=['FMT']),
     'C07': P('C07', 16000, 1500000, modules=['D128.Props.C07', 'D128.Props.C07b', 'D128.Props.C07c'], kernel=['digits.round', 'parseFormat', 'Decimal.digits_', 'formatArgs.*', 'digits.fmtE', 'digits.fmtF', 'digits.pad', 'Decimal.appendSpecial', 'Decimal.format', 'Decimal.Append', 'Append', 'Format', 'Decimal.String', 'Decimal.MarshalText', 'Decimal.Format', 'Decimal.writeSpecial'], extra_gens=['FMT']),
     'C08': P('C08', 32000, 3000000, modules=['D128.Props.C08', 'D128.Props.C15'] + KERNEL + SPECM, kernel=['RoundingMode.round', 'composeQuantum', 'U128.div10', 'U128.add64']),
     'C09': P('C09', 16000, 1500000, modules=['D128.Props.C09', 'D128.Props.C09b'] + KERNEL + WIDE, kernel=['FromFloat64', 'FromFloat32', 'Decimal.Float64', 'Decimal.Float32', 'FromFloat', 'Decimal.Float', 'U256.lsh', 'U256.rsh', 'U256.div10', 'U256.mul64', 'U128.mul1e38', 'RoundingMode.reduce256'], kernel_n={Q: 4000, T: 400000}),
@@ -40,7 +40,7 @@ PROPS = {
     'C12': P('C12', 32000, 3000000, modules=['D128.Props.C12'], kernel=['compose', 'Decimal.decompose', 'Decimal.MarshalBinary', 'Decimal.UnmarshalBinary']),
     'C13': P('C13', 16000, 1500000, modules=['D128.Props.C13', 'D128.Props.C05', 'D128.Props.C05Value', 'D128.Props.C06', 'D128.Props.C06b'] + KERNEL, kernel=['parseNumber', 'Decimal.digits_', 'RoundingMode.reduce128', 'Decimal.MarshalJSON', 'Decimal.UnmarshalJSON', 'digits.fmtE', 'digits.fmtF']),
     'C14': P('C14', 16000, 1500000, modules=['D128.Props.C14'] + KERNEL + WIDE, kernel=['Decimal.Decompose', 'Decimal.Compose', 'U256.div1e19', 'U256.lsh', 'U192.div10000', 'U128.div10', 'U128.mul64', 'compose'], kernel_n={Q: 4000, T: 400000}),
-    'C15': P('C15', 18000, 480000, shards={Q: 6}, modules=['D128.Props.C15', 'D128.Props.C15b'] + POW, kernel=['nan', 'inf', 'zero', 'one', 'Decimal.IsNaN', 'Decimal.isInf', 'Decimal.isSpecial', 'Decimal.IsZero']),
+    'C15': P('C15', 18000, 480000, shards={Q: 6}, modules=['D128.Props.C15', 'D128.Props.C15b', 'D128.Props.C15c', 'D128.Props.C04', 'D128.Props.C04b'] + POW, kernel=['nan', 'inf', 'zero', 'one', 'Decimal.IsNaN', 'Decimal.isInf', 'Decimal.isSpecial', 'Decimal.IsZero']),
     'C16': P('C16', 4800, 400000, modules=['D128.Props.C16', 'D128.Props.C16Exp', 'D128.Props.C16Log', 'D128.Props.C16Bands', 'D128.Proofs.EnclosureTables', 'D128.Props.C15'] + KERNEL + WIDE, kernel=['decomposed192.*', 'U192.*', 'U384.*'], kernel_n={Q: 120, T: 8000}),
     'C17': P('C17', 16000, 1000000, modules=['D128.Props.C17', 'D128.Props.C17Oracle', 'D128.Props.C15'] + KERNEL + WIDE, kernel=['decomposed192.mul', 'decomposed192.quo', 'decomposed192.add', 'U192.div']),
     'C18': P('C18', 3200, 300000, modules=['D128.Props.C18', 'D128.Props.C18b', 'D128.Props.C18c', 'D128.Props.C18Oracle', 'D128.Props.C15', 'D128.Props.C02Quo'] + KERNEL + WIDE, kernel=['decomposed192.log', 'decomposed192.epow', 'decomposed192.rcp', 'decomposed192.mul']),
